@@ -2,15 +2,30 @@
 _REAL = ["engine shard (WriteRows, ForceFlush, DropMeasurement, Close, WAL, memtable, snapshot)",
          "engine/immutable (flush, TSSP files, reference counts, sequencer + asynchronous reload, level/full compaction, out-of-order merge, ReplaceFiles)",
          "read path: CreateCursor (cloneReaders, GetBothFilesRef), cursors, ChunkReader", "engine/index/tsi + mergeset (not gated)",
-         "lib/fileops through simfs gates (mutations and reads of data/ and wal/)", "Go runtime scheduler inside one step (real goroutines, GOMAXPROCS=4)"]
+         "lib/fileops through simfs gates (mutations and reads of data/ and wal/)", "lock-level yield points (tools/yieldins: Lock/RLock/Unlock/RUnlock/Ref/Unref statements of the shard, memtable and immutable packages) under the seeded scheduler", "Go runtime scheduler between two yield points (real goroutines; GOMAXPROCS=1 without asynchronous preemption, 3 chaos workers at GOMAXPROCS=4)"]
 _STUB = ["meta service (not needed at shard level)", "SQL layer (statements parsed by the real parser; reader ops hand-written as in the repo's own tests)", "network",
          "timers: size/time triggered flush and the compaction worker are switched off; flush/compaction/merge are client operations"]
 
 WORLDS = {
-    "C": {"pkg": "engine", "harness": "engine", "test": "TestVerifWorldC", "cpu": 4, "real": _REAL, "stub": _STUB,
+    "C": {"pkg": "engine", "harness": "engine", "test": "TestVerifWorldC", "cpu": 1,
+          # one P and no asynchronous preemption: goroutines switch only where they block, park or yield
+          # VERIF_C_YIELD_EXCLUDE: comma-separated substrings of yield-site names where no goroutine is ever parked
+          "env": {"GODEBUG": "asyncpreemptoff=1", "VERIF_C_YIELD_EXCLUDE": ""},
+          "det_cpus": [1, 1, 1, 1], "det_burners": [0, 0, 3, 3],
+          "det_note": "registered configuration of world C is GOMAXPROCS=1 with GODEBUG=asyncpreemptoff=1 (chaos workers excepted); the "
+                      "self-test therefore runs its four processes at GOMAXPROCS=1, concurrently, together with six busy-looping processes that compete for the machine "
+                      "(processes are not pinned: the code under test sizes limiters by the CPUs of the affinity mask)", "real": _REAL, "stub": _STUB,
           "harness_files": ["s_*.go", "c_*.go"],
+          # lock-level yield points (tools/yieldins): instrumented copies of these files of the current tree
+          "yield_files": ["engine/shard.go", "engine/shard_ddl.go", "engine/ts_storage.go", "engine/iterators.go", "engine/wal.go",
+                          "engine/mutable/table.go", "engine/mutable/ts_table.go", "engine/mutable/pool.go",
+                          "engine/immutable/mms_tables.go", "engine/immutable/ts_mms_tables.go", "engine/immutable/tssp_file.go",
+                          "engine/immutable/tssp_reader.go", "engine/immutable/compact.go", "engine/immutable/merge_out_of_order.go",
+                          "engine/immutable/merge_tool.go", "engine/immutable/merge_util.go", "engine/immutable/sequencer.go",
+                          "engine/immutable/mms_loader.go"],
           "extra_overlay": {"engine/immutable/zz_verif_dbg.go": "hooks/immutable_dbg.go",
-                            "engine/immutable/zz_verif_c_hook.go": "hooks/c_immutable_hook.go"}},
+                            "engine/immutable/zz_verif_c_hook.go": "hooks/c_immutable_hook.go",
+                            "lib/util/lifted/vm/mergeset/zz_verif_seam.go": "hooks/mergeset_seam.go"}},
 }
 
 PROPS = {
@@ -20,7 +35,7 @@ PROPS = {
                 "reopen so that the first concurrent write starts the asynchronous sequencer reload) + operation lists of 2-3 writers (disjoint series, monotone "
                 "with own overwrites), 2 readers, a flusher, a compactor/merger, optionally a dropper and a closer + a schedule seed. Every mutation (and per case "
                 "every read of chosen classes: sequencer reload, query, compaction, merge) of data/ and wal/ files parks at a gate; one scheduler step = start one "
-                "operation or release one parked FS operation (descriptor-keyed uniform choice, PCT priorities over task classes in half of the runs, or a recorded schedule used as priority order in replays/minimisation), then wait for process-wide quiescence (runtime.Stack). Oracle per query: "
+                "operation or release one parked FS operation or one goroutine parked at a lock-level yield point (descriptor-keyed uniform choice, PCT priorities over task classes in half of the runs, or a recorded schedule used as priority order in replays/minimisation), then wait for process-wide quiescence (runtime.Stack). Oracle per query: "
                 "acknowledged-before-start points present, no duplicate/out-of-order timestamps, every value written to that cell by a write issued before the query "
                 "ended, nothing a reader saw disappears; no deadlock/panic; settled full reads and a reopen equal the model. evaluations = runs + queries judged. "
                 "Non-trivial = at least one scheduler step with a query in flight together with a flush/compaction/merge/sequencer reload/drop/close and at least one "
@@ -28,9 +43,17 @@ PROPS = {
         "eval_extra": ["queries", "final_reads"],
         "probes": ["sequencer reload in flight across scheduler steps", "query overlapped flush", "query overlapped compact", "query overlapped merge",
                    "query overlapped seq_reload", "query overlapped close", "query overlapped drop"],
-        "assumptions": ["interleavings are explored at file-system-call granularity; races between two in-memory sections inside one scheduler step are left to the Go scheduler",
+        "assumptions": ["interleavings are explored at file-system-call granularity in every run and, in about two thirds of the runs (knob lock_nth), also at the Lock/RLock/Unlock/RUnlock/Ref/Unref "
+                        "statements of the instrumented files (cfg yield_files; sites chosen per case by lock_sites/lock_cls, one arrival in lock_nth parks); code between two such points runs "
+                        "un-interleaved at GOMAXPROCS=1 (goroutines woken or spawned inside a step are stopped at their next yield point and resumed one at a time in canonical order); "
+                        "3 of the workers run at GOMAXPROCS=4 without that serialisation (chaos_runs)",
+                        "the iteration order of the engine's measurement/series maps in the instrumented files is a per-case knob (map_order), not the runtime's random order",
+                        "the index starts one background part merger per table (as on a one-CPU machine) in the GOMAXPROCS=1 workers",
                         "series are created and made visible in the prologue; writers own disjoint series",
                         "timer-driven flush/compaction are off (they are client operations)", "race-detector reports are leads, not violations"],
+        # 3 of the workers run at GOMAXPROCS=4 ("chaos": in-memory races inside one scheduler step are left to the Go
+        # runtime, as all workers did before the lock-level yield points existed); counted in stats as chaos_runs
+        "chaos_workers": 3, "chaos_cpu": 4,
         "quick": {"runs": 3500, "budget_s": 170, "workers": 14},
         "thorough": {"runs": 45000, "budget_s": 2300, "workers": 16},
     },
